@@ -91,6 +91,33 @@ def run(ctx, prog):
         return None if (v[0] == 'agg' and str(v[2]) == 'Embed' and strip(v[3][0]) == ('leaf', 'method')) else 'relationship method not embedded as given'
     A.require('insert_method/unique-id-then-exactly-the-set-of-the-scope', paths, r_im, replay=REPLAY)
 
+    # ------------------------------------------------------------------------------------------- remove_method_and_scope
+    # the id is removed from every relationship set (references included) on every way out; unless an embedded method
+    # was found (search complete) the general-purpose set is searched as well.  Loop over the five results: unwind 6.
+    f = prog.one(IMPL + r'remove_method_and_scope$')
+    paths, ex = A.paths(f, unwind=6, allow_bound=True)
+    ctx.bounds.append('remove_method_and_scope: result loop unrolled 6 times (five relationship sets); longer iterations cut')
+
+    def r_rms(p):
+        if p.kind != 'return':
+            return 'panic ' + p.msg
+        rem = [c for c in p.find_calls(r'OrderedSet.*::remove$') if len(c.args) == 2 and strip(c.args[1]) == ('leaf', 'did_url')]
+        sets = set(set_of(c.args[0]) for c in rem)
+        missing = sorted(set(REL.values()) - sets)
+        if missing:
+            return 'returns without removing the id from %s' % ', '.join(missing)
+        from_vm = [c for c in rem if set_of(c.args[0]) == 'verification_method']
+        t = p.term()
+        if isinstance(p.val, VAgg) and p.val.variant == 'None' and not from_vm:
+            return 'reports "no such method" without searching verificationMethod'
+        if from_vm and isinstance(p.val, VAgg) and p.val.variant == 'Some':
+            tup = p.val.fields[0]
+            if isinstance(tup, VAgg) and len(tup.fields) == 2 and isinstance(tup.fields[1], VAgg) and str(tup.fields[1].variant) == 'VerificationMethod':
+                if strip(p.term(tup.fields[0])) != ('field', from_vm[0].ret, 0, 'Some'):
+                    return 'general-purpose result is not the method removed from verificationMethod'
+        return None
+    A.require('remove_method_and_scope/id-leaves-every-relationship-set', paths, r_rms, replay={'scenario': 'document_ops', 'cex': {'only': '[remove]'}})
+
     f = prog.one(IMPL + r'remove_method$')
     paths, ex = A.paths(f, inline=IMPL + r'remove_method::\{closure')
     A.require('remove_method/is-remove_method_and_scope', paths,
